@@ -216,6 +216,12 @@ def run(env, rep):
                         lens.add(const_val(ln) if const_val(ln) is not None else stable(ln))
         rep.check("C05.R4", "p2-size", lens == {1536}, "packet 2 (signed or echoed) is 1536 bytes", "the response to packet 1 has length %s (expected 1536)" % sorted(map(str, lens)), p1.span)
 
+    # ------------------------------------------------------------------ R5 the packet-1 stage answers every peer (C11 R4)
+    from ..framework import PrefixReport, wants
+    from . import C11
+    if wants(rep, "C05.R5"):
+        C11.run(env, PrefixReport(rep, "C11.", "C05.R5.", only=("C11.R4",)))
+
 
 def _trace_local(env, b):
     ex = grammar.Extractor(env, b.key, "r")
